@@ -761,6 +761,11 @@ class introduction(Method):
         for item in cur_item.subproof.items[:-1]:
             new_id = state.find_goal(state.get_proof_item(item.id).th, item.id)
             if new_id is not None:
+                # The closing intros step discharges assumptions and generalizes
+                # variables: such a line can only be replaced by a line of the
+                # same kind, not by a line that merely states the same sequent.
+                if item.rule != 'sorry' and state.get_proof_item(new_id).rule != item.rule:
+                    continue
                 state.replace_id(item.id, new_id)
 
 
